@@ -981,7 +981,12 @@ def check_caller(rep, repo):
     rows_ok = bool(ents) and all(ch and ch[0][0][3] == A(lp.MODEL, 'pairs') for _, _, _, ch in ents)
     nones = [en for en in ents if en[2] == NONE]
     others = [en for en in ents if en[2] != NONE]
-    uses_var = bool(others) and all(sum(1 for _, g in en[3] if g != TRUE) == 1 and all(selects_set_variable(g) for _, g in en[3] if g != TRUE) for en in others)
+    def guards_of(en):
+        gs = [g for _, g in en[3] if g != TRUE and g != en[2]]         # `if matched: extend(matched)`: the list's own truthiness selects nothing
+        if en[2][0] == 'comp':                     # extend([pair for pair in row if <selected>])
+            gs += [g for _, g in en[2][1] if g != TRUE]
+        return gs
+    uses_var = bool(others) and all(len(guards_of(en)) == 1 and selects_set_variable(guards_of(en)[0]) for en in others)
     none_neg = len(nones) == 1 and contains(nones[0][3][-1][1], lambda x: x[0] == 'not')
     if none_neg:
         # the "nothing selected" test must be about THIS row: a flag carried over from earlier rows is stale
